@@ -146,5 +146,41 @@ def run(ck):
     ck.require_fact("P6.defer-once", ck.flow(dfl), ev_assign(dflag, E.m_const(1)), E.m_is_mem(dflag), False, "flags.deferred = 1",
                     why="(a second deferred reply would overwrite the first one: a response part would be lost)")
     ck.who_writes("P6.who-defers", facts, dflag, {"Http::Stream::Stream": "initialised clear", "Http::Stream::deferRecipientForLater": "set together with deferredparams"}, min_writers=2)
+    ck.rule("P7b WHO(ConnStateData::stopReceiving): kick() closes the connection as soon as the response at the front has finished once stoppedReceiving() is set, so every "
+            "response still queued behind it is dropped. Only the two confirmed callers may set it (connection-auth erased; the consumer of the request body being read "
+            "aborted -- that body belongs to the last stream, nothing is queued behind it); an error on a later pipelined request must use flags.readMore = false instead")
+    ck.who_calls("P7b.who-stops-receiving", facts, "ConnStateData::stopReceiving",
+                 {"ConnStateData::setAuth": "connection-auth removed: graceful closure is the documented intent",
+                  "Http::One::Server::noteBodyConsumerAborted": "the body being read belongs to pipeline.back(); closes ASAP by design"}, min_callers=2,
+                 why="(responses queued behind the one in progress are never delivered once receiving is stopped)")
+
+    ck.rule("P8 WHO-owner of the request body being read: by P5b no request is parsed while bodyPipe is set, so the body read from the client belongs to the most recently "
+            "added stream, pipeline.back(). A ConnStateData member that attributes a property of that body to a pipelined request (HttpRequest::setContentLength with the "
+            "dechunked size) must reach the request through a local defined by pipeline.back(): through pipeline.front() it lands on an *earlier* request that is still being "
+            "served (a GET forwarded with the POST's Content-Length: the origin waits for a body that never comes, and both responses are lost)")
+    nattr = 0
+    for f in facts.all_fns(lambda f: f.name.startswith("ConnStateData::") and f.file.endswith("src/client_side.cc") and f.tmpl != 2):
+        defs = ck.local_defs(f)
+        for b in f.blocks.values():
+            for ev in b["ev"]:
+                x = E.strip(ev.get("x")) if ev.get("e") == "call" else None
+                if not (isinstance(x, dict) and x.get("f", "").endswith("::setContentLength")):
+                    continue
+                roots = sorted({n_["d"] for n_ in E.walk(x.get("o")) if n_.get("k") == "ref" and n_.get("dk") == "local"})
+                if len(roots) != 1:
+                    continue
+                ds = defs.get(roots[0], [])
+                viaq = [E.strip(d).get("f") for d in ds if E.strip(d).get("k") == "call" and E.strip(d).get("f", "").startswith("Pipeline::")]
+                if not viaq:
+                    continue            # not reached through the pipeline (e.g. the request just parsed)
+                nattr += 1
+                if len(ds) == 1 and viaq == ["Pipeline::back"]:
+                    ck.ok("P8.body-owner-is-back", f.where(ev["l"]), "%s: the body size goes to pipeline.back()'s request" % f.name)
+                else:
+                    ck.violation("P8.body-owner-is-back", "P8|%s|setContentLength|via:%s" % (f.name, ",".join(sorted(set(viaq)))), f.where(ev["l"]),
+                                 "%s stamps the size of the body it has just read on the request of %s: with an earlier request still in the pipeline that is not the "
+                                 "request this body belongs to (pipeline.back())" % (f.name, " / ".join(sorted(set(viaq)))))
+    ck.need(nattr >= 1, "C05: no ConnStateData member attributes the dechunked body size through the pipeline any more (finishDechunkingRequest changed?)")
+
     ck.assume("which body is attached to which response is not decided; FTP (Ftp::Server::handleReply) relies on its Must(pipeline.count()==1); "
               "asynchronous re-entrancy between the gates is not modelled")
